@@ -263,7 +263,17 @@ func (fv *FuncVerifier) byteFuncs(n int) byteFn {
 			le = append(le, fmt.Sprintf("(= (%s bo_le v %d) (mod (div v %s) 256))", put, k, new(big.Int).Lsh(big.NewInt(1), uint(8*k)).String()))
 		}
 		lim := new(big.Int).Lsh(big.NewInt(1), uint(8*n)).String()
-		fv.u.declare("fun:"+put, fmt.Sprintf("(declare-fun %s (Int Int Int) Int)\n(declare-fun %s (Int %s) Int)\n(declare-const bo_le Int)\n"+
+		var bvars, bnames []string
+		for k := 0; k < n; k++ {
+			bvars = append(bvars, fmt.Sprintf("(b%d Int)", k))
+			bnames = append(bnames, fmt.Sprintf("b%d", k))
+		}
+		defer func() {
+			fv.u.decls = append(fv.u.decls, fmt.Sprintf("(assert (forall ((o Int) %s) (! (and (<= 0 (%s o %s)) (< (%s o %s) %s)) :pattern ((%s o %s)))))",
+				strings.Join(bvars, " "), get, strings.Join(bnames, " "), get, strings.Join(bnames, " "), lim, get, strings.Join(bnames, " ")))
+		}()
+		fv.u.declare("const:bo_le", "(declare-const bo_le Int)")
+		fv.u.declare("fun:"+put, fmt.Sprintf("(declare-fun %s (Int Int Int) Int)\n(declare-fun %s (Int %s) Int)\n"+
 			"(assert (forall ((o Int) (v Int) (k Int)) (! (and (<= 0 (%s o v k)) (<= (%s o v k) 255)) :pattern ((%s o v k)))))\n"+
 			"(assert (forall ((o Int) (v Int)) (! (=> (and (<= 0 v) (< v %s)) (= (%s o %s) v)) :pattern ((%s o v 0)))))\n"+
 			"(assert (forall ((v Int)) (! (=> (and (<= 0 v) (< v %s)) (and %s)) :pattern ((%s bo_le v 0)))))",
